@@ -66,6 +66,17 @@ def run_impl(c, hbin, cases, chunk=400):
             except Exception:
                 hp = None
         got = out[6:]
+        if hp is None and len(out) >= 6 and not getattr(c, "_probe_reported", False):
+            c._probe_reported = True
+            pr = Case("http", "hc", [PROBE["http"]], tag="probe")
+            pr.out = out[5]; pr.d = parse_out_line(out[5]); pr.impl = "(the well-formed probe request itself)"
+            c.violation("the embedded HTTP server does not answer the well-formed probe request correctly", pr.replay())
+        for api_i, api in enumerate(APIS):
+            if len(out) >= 6 and api != "http" and parse_out_line(out[2 * api_i + 1]).get("reply", "-") == "-" and not getattr(c, "_probe_reported_" + api, False):
+                setattr(c, "_probe_reported_" + api, True)
+                pr = Case(api, "hc", [PROBE[api]], tag="probe")
+                pr.out = out[2 * api_i + 1]; pr.d = parse_out_line(pr.out); pr.impl = "(the well-formed probe request itself)"
+                c.violation(f"the {api} front-end does not answer the well-formed probe request", pr.replay())
         for x, o in zip(batch, got):
             x.out = o
             x.d = parse_out_line(o)
